@@ -78,7 +78,7 @@ Proof.
   destruct (nth_error (d_states d) q) as [st|] eqn:En; [|reflexivity].
   destruct st as [ts|brs|]; [| |reflexivity].
   - destruct (select ts s) as [t|] eqn:Es.
-    + destruct (is_end s && accepting d q && negb (has (t_on t) sym_end)).
+    + destruct (is_end s && accepting d q && (negb (has (t_on t) sym_end) || t_err t)).
       { cbn. unfold source_return. destruct (accepting d q); [reflexivity|]. destruct (is_end s); reflexivity. }
       unfold body. apply run_acts_good; [intros; apply IH|].
       eapply state_trans_wf; eauto. cbn. eapply select_in; eauto.
